@@ -75,6 +75,10 @@ def match_known(known, prop, sig):
         for k, v in f["match"].items():
             if k == "ops_contain":
                 ok = isinstance(sig.get("ops"), list) and _contains(v, sig["ops"])
+            elif k == "acts_subseq":
+                acts = sig.get("acts") or []
+                it = iter(acts)
+                ok = all(any(x == want for x in it) for want in v)
             elif k == "ops_contain_any":
                 ok = isinstance(sig.get("ops"), list) and any(_contains(alt, sig["ops"]) for alt in v)
             elif k.endswith("_in"):
